@@ -331,3 +331,25 @@ Theorem C17_assignment_order_irrelevant_full : forall esc decls idk metaf h h' g
   = generated esc (seal_edges_full decls idk metaf) h' gens root jd.
 Proof. exact assignment_order_irrelevant_full. Qed.
 Print Assumptions C17_assignment_order_irrelevant_full.
+
+(* two open holes of the same family (something the identifier ignores decides where a path is generated):
+   (1) a parameter ignored by the identifier (Meta[...]) declared before p: T(m=s, p=s) and T(p=s) - one
+       identifier, one job directory - place the shared s under out/m and under out/p;
+   (2) the full identifier hashes the SET of the pre-tasks of the whole graph: attaching a pre-task to another
+       sub-configuration keeps the identifier and moves the pre-task's generated path                    *)
+Theorem C17_ignored_parameter_refuted :
+  exists h h' gens root jd s,
+    (exists nd rest kv, h = nd :: rest /\ h' = {| cls := cls nd; fields := tl (fields nd); pre := pre nd; init := init nd;
+                                               task := task nd; sealed := sealed nd |} :: rest /\ hd_error (fields nd) = Some kv) /\
+    path_of s (generated esc_fix seal_edges h gens root jd) <> path_of s (generated esc_fix seal_edges h' gens root jd).
+Proof. exact ignored_parameter_refuted. Qed.
+Print Assumptions C17_ignored_parameter_refuted.
+
+Theorem C17_pretask_attachment_refuted :
+  exists h h' gens root jd q,
+    map (fun nd => (cls nd, fields nd, init nd, task nd, sealed nd)) h
+    = map (fun nd => (cls nd, fields nd, init nd, task nd, sealed nd)) h' /\
+    Permutation (flat_map pre h) (flat_map pre h') /\
+    path_of q (generated esc_fix seal_edges h gens root jd) <> path_of q (generated esc_fix seal_edges h' gens root jd).
+Proof. exact pretask_attachment_refuted. Qed.
+Print Assumptions C17_pretask_attachment_refuted.
